@@ -48,7 +48,7 @@ Proof.
   intros [_ [H | [H _]]]; [discriminate | vm_compute in H; discriminate].
 Qed.
 
-(* the same call under the repaired consolidate_results (ok re-derived from the scaled grade) *)
+(* the same call under the repaired raw_check (ok re-derived from the scaled grade) *)
 Lemma call_repaired_example :
   call 3 (table_oracles_v true [([0%nat], LCfn [CfPartial])] [] []) refuting_cfg (GItem (KFormula 0) []) (AItem [zero_alt])
        (IStr []) None [] = Ret (ESingle (mkEntry OkFalse ((1 # 2) * 0) [])).
